@@ -93,6 +93,10 @@ impl MqttShared {
         }
     }
 
+    pub(super) fn notify_dispatcher(&self) {
+        self.io.notify_dispatcher();
+    }
+
     pub(super) fn tag(&self) -> &'static str {
         self.io.tag()
     }
